@@ -103,12 +103,12 @@ def needs_tz_crosscheck(rep, F, rp_table, rule='R-TABLE'):
         return 0
     rep.add_functions([fn.name])
     if rp_table is None:
-        rep.undecided(rule, fn.key + ':lazy-flag', 'round_pair table unavailable or inconsistent; cross-check not performed', fn.where())
+        rep.undecided_anchor(rule, fn.key + ':lazy-flag', 'round_pair table unavailable or inconsistent; cross-check not performed', fn.where())
         return 0
     try:
         paths = TB.PathEnum(F, fn).run()
     except Undecided as e:
-        rep.undecided(rule, fn.key + ':lazy-flag', 'table not extractable: %s' % e, fn.where())
+        rep.undecided_anchor(rule, fn.key + ':lazy-flag', 'table not extractable: %s' % e, fn.where())
         return 0
     enums = F.raw['enums']
     n = 0
